@@ -12,6 +12,22 @@ REPLAYS = os.path.join(VERIF, "replays")
 KNOWN = os.path.join(VERIF, "known_findings.json")
 
 
+def crate_dir(rel):
+    """Directory of one of our cargo crates. Their Cargo.toml depends on /repo/src/cwe_checker_lib by path; when
+    VERIF_REPO points elsewhere (background runs on a snapshot of /repo) a copy with rewritten paths is used."""
+    src = os.path.join(VERIF, rel)
+    if REPO == "/repo":
+        return src
+    import shutil
+    dst = os.path.join(BUILD, "alt", rel.replace("/", "_"))
+    if os.path.exists(dst):
+        shutil.rmtree(dst)
+    shutil.copytree(src, dst, ignore=shutil.ignore_patterns("target", "Cargo.lock"))
+    toml = os.path.join(dst, "Cargo.toml")
+    open(toml, "w").write(open(toml).read().replace('"/repo/src/cwe_checker_lib"', '"%s/src/cwe_checker_lib"' % REPO))
+    return dst
+
+
 def log(*a):
     print(*a, file=sys.stderr, flush=True)
 
